@@ -11,6 +11,7 @@ import (
 	"crypto/x509/pkix"
 	"encoding/pem"
 	"fmt"
+	"google.golang.org/grpc/metadata"
 	"math/big"
 	"net"
 	"os"
@@ -105,6 +106,34 @@ func mintCert(cn string, ca *x509.Certificate, caKey *ecdsa.PrivateKey) (tls.Cer
 func c19Creds() ([]c19Cred, error) {
 	pool := x509.NewCertPool()
 	pool.AppendCertsFromPEM(resources.CACrt)
+	// claimHeaders: request metadata by which TLS-terminating proxies conventionally pass on a client's identity. Dirk
+	// terminates TLS itself: whatever a caller writes there is the caller's own claim.
+	claim := func(ctx context.Context, method string, req, reply any, cc *grpc.ClientConn, invoker grpc.UnaryInvoker, opts ...grpc.CallOption) error {
+		for _, h := range []string{"x-ssl-client-cn", "x-ssl-client-s-dn", "x-ssl-client-dn", "ssl-client-s-dn", "ssl-client-subject-dn", "x-client-cn", "x-client-dn", "x-client-cert", "x-forwarded-client-cert",
+			"x-forwarded-user", "x-remote-user", "x-authenticated-user", "x-client-name", "client-name", "client", "x-forwarded-for", "x-real-ip", "forwarded", "authorization"} {
+			v := "client-test01"
+			switch h {
+			case "x-ssl-client-s-dn", "x-ssl-client-dn", "ssl-client-s-dn", "ssl-client-subject-dn", "x-client-dn":
+				v = "CN=client-test01"
+			case "x-forwarded-client-cert":
+				v = `Subject="CN=client-test01"`
+			case "x-forwarded-for", "x-real-ip":
+				v = "127.0.0.1"
+			case "forwarded":
+				v = "for=127.0.0.1"
+			case "authorization":
+				v = "Bearer client-test01"
+			}
+			ctx = metadata.AppendToOutgoingContext(ctx, h, v)
+		}
+		return invoker(ctx, method, req, reply, cc, opts...)
+	}
+	tlsDialClaiming := func(certs []tls.Certificate) func(string, int) (*grpc.ClientConn, error) {
+		return func(addr string, localPort int) (*grpc.ClientConn, error) {
+			cfg := &tls.Config{RootCAs: pool, ServerName: "signer-test01", MinVersion: tls.VersionTLS13, Certificates: certs}
+			return grpc.NewClient("passthrough:///"+addr, grpc.WithTransportCredentials(credentials.NewTLS(cfg)), c19Dialer(localPort), grpc.WithUnaryInterceptor(claim))
+		}
+	}
 	tlsDial := func(certs []tls.Certificate) func(string, int) (*grpc.ClientConn, error) {
 		return func(addr string, localPort int) (*grpc.ClientConn, error) {
 			cfg := &tls.Config{RootCAs: pool, ServerName: "signer-test01", MinVersion: tls.VersionTLS13}
@@ -205,6 +234,7 @@ func c19Creds() ([]c19Cred, error) {
 		{Name: "self-signed certificate CN=client-test01", Dial: tlsDial([]tls.Certificate{selfSigned})},
 		{Name: "certificate from another authority CN=client-test01", Dial: tlsDial([]tls.Certificate{foreign})},
 		{Name: "certificate from another authority with its CA in the chain", Dial: tlsDial([]tls.Certificate{foreignWithChain})},
+		{Name: "valid client-test02 whose requests carry the identity headers of TLS-terminating proxies, naming client-test01", Valid: true, CN: "client-test02", Dial: tlsDialClaiming(valid(resources.ClientTest02Crt, resources.ClientTest02Key))},
 		{Name: "valid client-test01", Valid: true, CN: "client-test01", Dial: tlsDial(valid(resources.ClientTest01Crt, resources.ClientTest01Key))},
 		{Name: "valid client-test02", Valid: true, CN: "client-test02", Dial: tlsDial(valid(resources.ClientTest02Crt, resources.ClientTest02Key))},
 		{Name: "valid client-test03", Valid: true, CN: "client-test03", Dial: tlsDial(valid(resources.ClientTest03Crt, resources.ClientTest03Key))},
